@@ -356,6 +356,45 @@ def run3(x, log):
 ''', [("run", [({}, [1, 2]), ([1, 2], {}), ([1, 2, 3], {}), (1, 2), ({1: 0}, [1, 5])]), ("run2", [(1,), (6,), (11,)]), ("run3", [(0, []), (3, [])])])
 
 
+# ---- named values over operands that are re-bound elsewhere in the function
+case('''
+def run(xs):
+    out = []
+    cur = 0
+    for x in xs:
+        big = cur > 2
+        cur = cur + x
+        if big:
+            out.append(x)
+    return out
+
+def run2(n):
+    a = 1
+    flag = a == 1
+    while a < n:
+        if flag:
+            a += 2
+        else:
+            a += 1
+    return a, flag
+
+def run3(items):
+    aa = items[0] if items else None
+    res = []
+    while True:
+        is_lit = aa == "{"
+        if not is_lit and not isinstance(aa, int):
+            break
+        if is_lit:
+            res.append("lit")
+        else:
+            res.append(aa)
+        items = items[1:]
+        aa = items[0] if items else None
+    return res
+''', [("run", [([1, 2, 3, 4],), ([],)]), ("run2", [(6,), (0,)]), ("run3", [(["{", 1, 2, "x"],), ([],), ([3, "{"],)])])
+
+
 def outcome(ns, fn, args):
     import copy
     try:
